@@ -91,6 +91,29 @@ def main():
 
         with ThreadPoolExecutor(max_workers=32) as ex:
             list(ex.map(one, cases))
+        if prop == "C04":
+            # datagrams of 12+ octets with QR=0 that no parser can accept
+            import random as _random
+            hdr = lambda qd, an=0: struct.pack(">HHHHHH", _random.randrange(65536), 0x0100, qd, an, 0, 0)  # noqa: E731
+            bad = [hdr(1) + b"\x05abc",                                  # name runs past the end
+                   hdr(1) + b"\x03www\x07example",                       # no terminator, no type/class
+                   hdr(1) + b"\x40abc\x00\x00\x01\x00\x01",             # reserved label type
+                   hdr(1) + b"\xc0\x0c\x00\x01\x00\x01",                # pointer to itself
+                   hdr(65535, 65535) + bytes(688),                      # counts far beyond the 700 octets present
+                   hdr(1) + b"\x03www\x00\x00\x01\x00\x01" + bytes([0, 0, 41, 4, 0, 0, 0, 0, 0, 0, 9, 0, 10, 0, 20]),  # OPT whose option overruns
+                   hdr(2) + b"\x01a\x00\x00\x01\x00\x01"]               # two questions announced, one present
+            import socket as _s
+            for b_ in bad:
+                u = _s.socket(_s.AF_INET, _s.SOCK_DGRAM)
+                u.settimeout(1.0)
+                resp = None
+                try:
+                    u.sendto(b_, ("127.0.0.53", 53))
+                    resp, _frm = u.recvfrom(65535)
+                except OSError:
+                    pass
+                u.close()
+                events.append({"case": -1, "malformed_query_hex": b_.hex(), "response_hex": resp.hex() if resp else None})
         ev_path = os.path.join(d, "events.jsonl")
         with open(ev_path, "w") as f:
             for e in events:
